@@ -146,3 +146,21 @@ Proof.
   replace (cos x) with (cos (2 * (1 / 2 * x))) by (f_equal; field).
   rewrite cos_2a_cos. ring.
 Qed.
+
+(* ... in whichever way the source spells it: the argument of the half-angle cosine is made canonical modulo ring, then
+   the squared cosine itself (as a power or as a product) is replaced, wherever the factor 2 stands *)
+Lemma cos_half_sq (x : R) : (cos (1 / 2 * x)) ^ 2 = (1 + cos x) / 2.
+Proof. rewrite <- half_angle_1pcos. field. Qed.
+Lemma cos_half_mul (x : R) : cos (1 / 2 * x) * cos (1 / 2 * x) = (1 + cos x) / 2.
+Proof. rewrite <- cos_half_sq. ring. Qed.
+Ltac half_angle x :=
+  repeat match goal with
+         | |- context [cos ?a] =>
+             lazymatch a with
+             | x => fail
+             | 1 / 2 * x => fail
+             | _ => let E := fresh "E" in assert (E : a = 1 / 2 * x) by (unfold Rdiv; ring); rewrite E; clear E
+             end
+         end;
+  rewrite ?cos_half_sq, ?cos_half_mul.
+Ltac half_angle_in H x := revert H; half_angle x; intros H.
